@@ -67,6 +67,9 @@ func (u *Unit) havocChans(st *State) {
 			if n == "ch_closed" {
 				gs.stable = stable
 			}
+			if n != "ctx_err" {
+				gs.private = append([]Term(nil), st.PrivChans...)
+			}
 			st.GhostPrev = append(st.GhostPrev, gs)
 		}
 	}
@@ -80,6 +83,10 @@ func (u *Unit) ghostMonotone(st *State, name string, idx Term) {
 		}
 		o := Select(gs.old, idx, gs.sort, u.distinctAddr)
 		n := Select(gs.new, idx, gs.sort, u.distinctAddr)
+		for _, pc := range gs.private {
+			// nothing but this unit could reach the channel during that step
+			u.Axiom(Implies(Eq(pc, idx), Eq(o, n)))
+		}
 		switch name {
 		case "ch_sent", "ch_recv":
 			u.Axiom(Ge(n, o))
@@ -103,6 +110,7 @@ type ghostStep struct {
 	old, new Term
 	sort     Sort
 	stable   []Term // channels that could not be closed during this step (their mutex was held)
+	private  []Term // channels only this unit could reach during this step
 }
 
 // ---------------- channels ----------------
@@ -115,6 +123,7 @@ func (u *Unit) makeChan(st *State, fr *Frame, x *ssa.MakeChan) Term {
 	u.ghostSet(st, "ch_sent", SInt, c, IntLit(0))
 	u.ghostSet(st, "ch_recv", SInt, c, IntLit(0))
 	u.ghostSet(st, "ch_closed", SBool, c, False)
+	st.PrivChans = append(st.PrivChans, c)
 	// channel capacity bound from the contract, if any
 	if u.C != nil {
 		for i, cl := range u.C.Clauses {
@@ -212,6 +221,7 @@ func (u *Unit) execSend(st *State, fr *Frame, x *ssa.Send) {
 	c := u.term(st, fr, x.Chan)
 	v := u.term(st, fr, x.X)
 	u.curFrame = fr
+	u.chanLeak(st, v)
 	u.blockingOp(st, fr, x, "send")
 	u.havocChans(st)
 	u.chanSendEffect(st, x, c, v)
@@ -256,6 +266,7 @@ func (u *Unit) execSelect(st *State, fr *Frame, x *ssa.Select, k Kont) {
 		chans[i] = u.term(st, fr, s.Chan)
 		if s.Dir == types.SendOnly {
 			sends[i] = u.term(st, fr, s.Send)
+			u.chanLeak(st, sends[i])
 		}
 	}
 	u.havocChans(st)
@@ -1019,4 +1030,64 @@ func (u *Unit) soleCloserVar(st *State, fr *Frame, cl *Clause, name string) {
 		goal = False
 	}
 	u.Prove(st, u.obligName("chan-owner", name), "chan-owner", u.tagsOr(cl.Tags), u.Fn.Pos(), "only this function closes "+cl.Text+" (syntactic scan of the enclosing function)", goal, nil)
+}
+
+// chanLeak: values handed to other code (call arguments, closure bindings,
+// heap stores, sends). A private channel mentioned by one of them, directly or
+// through a local variable that holds it, is from now on reachable by others.
+func (u *Unit) chanLeak(st *State, vals ...Term) {
+	if len(st.PrivChans) == 0 {
+		return
+	}
+	var strs []string
+	for _, v := range vals {
+		strs = append(strs, v.String())
+	}
+	mentions := func(name string) bool {
+		for _, s := range strs {
+			if strings.Contains(s, name) {
+				return true
+			}
+		}
+		return false
+	}
+	var keep []Term
+	for _, pc := range st.PrivChans {
+		leaked := mentions(pc.A)
+		if !leaked {
+			for cell, chans := range st.PrivTaint {
+				for _, c := range chans {
+					if c == pc.A && mentions(cell) {
+						leaked = true
+					}
+				}
+			}
+		}
+		if !leaked {
+			keep = append(keep, pc)
+		}
+	}
+	st.PrivChans = keep
+}
+
+// chanStore: a store of v at addr; local variable cells only remember what they hold.
+func (u *Unit) chanStore(st *State, addr, v Term) {
+	if len(st.PrivChans) == 0 {
+		return
+	}
+	if addr.Op == "" && strings.HasPrefix(addr.A, "obj!") && st.Fresh[addr.String()] {
+		vs := v.String()
+		for _, pc := range st.PrivChans {
+			if strings.Contains(vs, pc.A) {
+				nt := cloneTaint(st.PrivTaint)
+				if nt == nil {
+					nt = map[string][]string{}
+				}
+				nt[addr.A] = append(append([]string(nil), nt[addr.A]...), pc.A)
+				st.PrivTaint = nt
+			}
+		}
+		return
+	}
+	u.chanLeak(st, v)
 }
